@@ -105,6 +105,13 @@ func dictMutators(where, e string) []mutator {
 		{Name: p + "setdefault", Code: "y = " + e + "\nv = y.setdefault(\"z\", 9)\n"},
 		{Name: p + "union", Code: "y = " + e + " | {\"z\": 9}\n"},
 		{Name: p + "copy-then-index-assign", Code: "y = " + e + ".copy()\ny[\"z\"] = 9\n"},
+		{Name: p + "union-with-empty-then-index-assign", Code: "y = " + e + " | {}\ny[\"z\"] = 9\n"},
+		{Name: p + "union-with-empty-then-overwrite", Code: "y = " + e + " | {}\ny[\"a\"] = 9\n"},
+		{Name: p + "empty-union-with-it-then-index-assign", Code: "y = {} | " + e + "\ny[\"z\"] = 9\n"},
+		{Name: p + "union-with-itself-then-index-assign", Code: "y = " + e + " | " + e + "\ny[\"z\"] = 9\n"},
+		{Name: p + "union-then-index-assign", Code: "y = " + e + " | {\"q\": 1}\ny[\"z\"] = 9\n"},
+		{Name: p + "dict-comprehension-then-index-assign", Code: "y = {k: v for k, v in " + e + ".items()}\ny[\"z\"] = 9\n"},
+		{Name: p + "items-element-index-assign", Code: "for kv in " + e + ".items():\n    kv[0] = 9\n"},
 		{Name: p + "function-argument-index-assign", Code: "def mut(m):\n    m[\"z\"] = 9\nmut(" + e + ")\n"},
 		{Name: p + "loop-variable-index-assign", Code: "for y in [" + e + "]:\n    y[\"z\"] = 9\n"},
 	}, where, e, 'd')
